@@ -68,6 +68,7 @@ func (s *bufSys) Ops() []string {
 
 // Apply executes one operation on the real buffer and the model.
 func (s *bufSys) Apply(op string) (obs, sig, msg string) {
+	defer panicAsViolation(op, &sig, &msg)
 	if s.lastOp != nil {
 		*s.lastOp = op
 	}
@@ -563,7 +564,7 @@ func runBufBody(mode, tier string, shard, shards int, rep *SeqReport, lastOp, cu
 			continue
 		}
 		s := mk(nil)
-		ops := []string{"LS" + strconv.Itoa(8 * 1024 * 1024)}
+		ops := []string{"LS" + strconv.Itoa(8*1024*1024)}
 		for occ := 0; occ < 5*1024*1024; occ += 60002 {
 			ops = append(ops, "W60000")
 		}
@@ -791,6 +792,117 @@ func c06fullRing(limit int, prefill, wr []int, bound int) *explore.Scenario {
 	return sc
 }
 
+// c06readers: several readers take packets from one buffer at the same time (one writer after a prefill):
+// every packet is returned to exactly one reader, intact; each reader sees increasing packet numbers.
+func c06readers(readers, perReader int, prefill, wr []int, bound int) *explore.Scenario {
+	name := fmt.Sprintf("buffer prefilled %v, %d readers x %d reads vs writer %v", prefill, readers, perReader, wr)
+	sc := &explore.Scenario{Name: name, Bound: bound}
+	sc.Cfg.Horizon = time.Second
+	sc.Cfg.YieldOnRelease = true
+	all := append(append([]int{}, prefill...), wr...)
+	mk := func(k, n int) []byte {
+		p := make([]byte, n)
+		for i := range p {
+			p[i] = byte(k*53 + i*7 + 1)
+		}
+		p[0] = byte(k)
+		return p
+	}
+	sc.Make = func() (func(), func(*zzvsched.Exec) (string, *explore.Violation)) {
+		got := make([][][]byte, readers+1) // per reader; last = drained by main at the end
+		var errs []string
+		body := func() {
+			b := packetio.NewBuffer()
+			for k, n := range prefill {
+				_, _ = b.Write(mk(k, n))
+			}
+			zzvsched.GoNamed("writer", func() {
+				for i, n := range wr {
+					if _, err := b.Write(mk(len(prefill)+i, n)); err != nil {
+						errs = append(errs, err.Error())
+					}
+				}
+			})
+			for r := 0; r < readers; r++ {
+				r := r
+				zzvsched.GoNamed(fmt.Sprintf("reader%d", r), func() {
+					for i := 0; i < perReader; i++ {
+						buf := make([]byte, 4096)
+						n, err := b.Read(buf)
+						if err != nil {
+							errs = append(errs, "read: "+err.Error())
+							return
+						}
+						got[r] = append(got[r], buf[:n])
+					}
+				})
+			}
+			zzvsched.WaitIdle()
+			for b.Count() > 0 {
+				buf := make([]byte, 4096)
+				n, err := b.Read(buf)
+				if err != nil {
+					errs = append(errs, "drain: "+err.Error())
+					return
+				}
+				got[readers] = append(got[readers], buf[:n])
+			}
+		}
+		check := func(ex *zzvsched.Exec) (string, *explore.Violation) {
+			var parts []string
+			for _, g := range got {
+				s := ""
+				for _, p := range g {
+					if len(p) > 0 {
+						s += fmt.Sprintf("%d ", p[0])
+					} else {
+						s += "? "
+					}
+				}
+				parts = append(parts, s)
+			}
+			out := strings.Join(parts, "| ")
+			if len(ex.Panics) > 0 {
+				return out, &explore.Violation{Sig: "C06 panic", Msg: name + ": panic: " + ex.Panics[0].Value + "\n" + ex.Panics[0].Stack}
+			}
+			if len(errs) > 0 {
+				return out, &explore.Violation{Sig: "C06 concurrent-error", Msg: name + ": " + strings.Join(errs, "; ")}
+			}
+			if ex.HorizonHit {
+				return out + " HORIZON", nil
+			}
+			seen := map[int]int{}
+			for r, g := range got {
+				last := -1
+				for _, p := range g {
+					if len(p) == 0 || int(p[0]) >= len(all) {
+						return out, &explore.Violation{Sig: "C06 concurrent-corrupt", Msg: fmt.Sprintf("%s: a read returned %d bytes that match no written packet", name, len(p))}
+					}
+					k := int(p[0])
+					if want := mk(k, all[k]); !bytes.Equal(p, want) {
+						return out, &explore.Violation{Sig: "C06 concurrent-corrupt", Msg: fmt.Sprintf("%s: packet %d (%d bytes) was read as %d bytes, first difference at %d", name, k, len(want), len(p), firstDiff(p, want))}
+					}
+					seen[k]++
+					if seen[k] > 1 {
+						return out, &explore.Violation{Sig: "C06 concurrent-duplicate", Msg: fmt.Sprintf("%s: packet %d was returned %d times (per reader: %s)", name, k, seen[k], out)}
+					}
+					if k < last {
+						return out, &explore.Violation{Sig: "C06 concurrent-order", Msg: fmt.Sprintf("%s: reader %d obtained packet %d after packet %d", name, r, k, last)}
+					}
+					last = k
+				}
+			}
+			// readers still waiting are fine only if they were outnumbered; every written packet must have been returned
+			if len(seen) != len(all) {
+				return out, &explore.Violation{Sig: "C06 concurrent-lost", Msg: fmt.Sprintf("%s: %d packets written, %d returned (%s); parked: %v", name, len(all), len(seen), out, ex.Parked)}
+			}
+			return out, nil
+		}
+		return body, check
+	}
+	return sc
+}
+
 func init() {
 	c := registry["C06"]
 	c.Scenarios = func(tier string) []*explore.Scenario {
@@ -804,7 +916,11 @@ func init() {
 			c06concurrent([][]int{{2, 3000}, {2040, 5}}, true, b),
 			c06fullRing(40, []int{16, 16}, []int{16, 10}, b),
 			c06fullRing(40, []int{10, 10, 10}, []int{20, 3}, b),
+			c06readers(2, 1, []int{9}, nil, b),
+			c06readers(2, 1, []int{9}, []int{7}, b),
+			c06readers(3, 1, []int{9, 5}, []int{7}, b),
+			c06readers(2, 2, []int{9}, []int{7, 1500, 3}, b),
 		}
 	}
-	c.Rule += "; concurrently: 2 writers x 2 packets whose sizes force the ring to grow, with and without a concurrent reader, every interleaving within the preemption bound: the read sequence must be a merge of the writers' sequences, byte-identical; a full size-limited ring (41 bytes) with a reader and a writer whose packets re-use the bytes just released, with a scheduling point after every unlock"
+	c.Rule += "; concurrently: 2 writers x 2 packets whose sizes force the ring to grow, with and without a concurrent reader, every interleaving within the preemption bound: the read sequence must be a merge of the writers' sequences, byte-identical; a full size-limited ring (41 bytes) with a reader and a writer whose packets re-use the bytes just released, with a scheduling point after every unlock; 2-3 concurrent readers on a buffer holding fewer packets than there are readers (each packet to exactly one reader)"
 }
